@@ -267,7 +267,8 @@ func c04DoFails(t *testing.T, c *ev.Collector) {
 	for _, p := range AllProtos {
 		for _, kind := range AllKinds {
 			for _, js := range []bool{false, true} {
-				for name, e := range errs {
+				for _, name := range []string{"eof", "transport", "unexpected"} { // fixed order: cases are assigned to shards by index
+					e := errs[name]
 					idx++
 					if !ev.Mine(idx) {
 						continue
